@@ -60,8 +60,17 @@ def gen_script(w, rng, maxops=40):
     ins(first)
     ops.append(("run",))
     look(rng.randrange(2, 6))
-    choice = rng.randrange(8)
-    if choice >= 6 and rest:
+    choice = rng.randrange(10)
+    if choice >= 8 and rest:
+        # the file-based entry point first (runAll with I/O), then purge everything and continue through the API on the same
+        # instance with other inputs: the later run() must neither load nor store anything
+        ops += [("purgein",), ("purgeout",), ("purgeinternal",), ("runall",)]
+        look(rng.randrange(1, 4))
+        ops += [("purgein",), ("purgeout",), ("purgeinternal",)]
+        ins(rest[: rng.randrange(1, len(rest) + 1)])
+        ops.append(("run",))
+        look(rng.randrange(2, 6))
+    elif choice >= 6 and rest:
         # a second, independent instance of the same program with other inputs; the first must be unaffected
         ops.append(("instance", "1"))
         ops.append(("threads", str(rng.choice([1, 2, 4]))))
@@ -132,7 +141,11 @@ class Model:
         k = op[0]
         if k == "insert":
             self.inputs[op[1]].add(tuple(op[2:]))
-        elif k == "run":
+        elif k in ("run", "runall"):
+            if k == "runall":
+                # file-based entry point: the program's own fact files are loaded on top of what the instance holds
+                for n, rows in self.w.facts.items():
+                    self.inputs[n] |= set(tuple(t) for t in rows)
             if self.dirty:
                 self.known = False  # results of a run on a dirty instance are not determined by the inputs alone
             else:
@@ -154,7 +167,7 @@ class Model:
                 self.inputs[op[1]] = set()
             elif self.known:
                 self.rels[op[1]] = set()
-        if k in ("run", "insert"):
+        if k in ("run", "runall", "insert"):
             self._p_purgeout = self._p_purgeinternal = False
 
 
@@ -336,6 +349,8 @@ class ApiProgram:
                 o = list(op)
                 if o[0] == "printall":
                     o = ["printall", pa]
+                if o[0] == "runall":
+                    o = ["runall", os.path.join(self.w.dir, "facts"), pa]
                 f.write("\t".join(o) + "\n")
         stats_path = os.path.join(d, "_sim.json")
         env = dict(os.environ)
